@@ -11,6 +11,7 @@ import procoracle as po
 FAMILIES = ['mixture', 'solver', 'process', 'curve', 'fit']
 BRIDGES = ['br_pp_', 'br_act_', 'br_to_', 'br_flux_', 'br_sepfactor_', 'br_permcomp_', 'br_proc_', 'br_nonideal_', 'br_curve_', 'br_metric_', 'br_measurements_']
 PROPS_V = 'Props/C07.v'
+EXTRA_TARGETS = ['Model/NumCheck.vo']
 BUDGET = {'quick': 120, 'thorough': 3000}
 ORACLE_RULE = ('every public modelling entry point (flux solver, permeate composition, separation factor, ideal and non-ideal diffusion curves with and without initial '
                'permeances, curve metrics, 4 process models, measurement extraction) called with the same physical composition as mass and as mole fraction; non-ideal '
@@ -110,6 +111,14 @@ def oracle(rng, tier):
             yield {'kind': entry + ':raised', 'case': case, 'ok': True, 'detail': '', 'nontrivial': False}
             continue
         yield {'kind': '%s:%s' % (entry, mode), 'case': case, 'ok': ok, 'detail': '' if ok else detail, 'nontrivial': nontriv}
+
+
+def correspondence(tier, seed):
+    import corr_numeric
+    budget = {'thermo': 20, 'convert': 20, 'solver': 10, 'curve': 10}
+    if tier == 'thorough':
+        budget = {k: v * 12 for k, v in budget.items()}
+    return corr_numeric.run(seed, budget, nmax=30 if tier == 'quick' else 200, tag='C07')
 
 
 def replay(rep):
